@@ -463,6 +463,15 @@ theorem vswrite_nvertices {v v' : VS} {vtb vtb' : Nat} {buf : Buf} {n il k : Nat
           rw [if_pos (by constructor <;> (intro e; exact hil (by simp [e])))]
         rw [this] at h; cases h
 
+/-- the write list of `VSsetfields` may name the PREDEFINED fields `PX … NZ` (`rstab[]` of vsfld.c) next to user-defined ones:
+    `vssetfields_schema` covers them (the record-size limit is applied to them too since commit fef3f30; before, the record size
+    wrapped modulo 65536 and `VSwrite` overflowed its transfer buffer: known finding `limits-ivsize-wrap:reserved-field`).
+    Here `A : uint8[65531]` and `PX` (4 bytes) fill a record of exactly `MAX_FIELD_SIZE` bytes, one more byte is refused. -/
+theorem vssetfields_rstab_limit :
+    ((vsfdefineTok [] "A" DFNT_UINT8 65531).bind fun usym => (buildWList usym ["A", "PX"]).map fun w =>
+      (w.ivsize, w.fields.map (·.isize), w.fields.map (·.off))) = some (65535, [65531, 4], [0, 65531]) ∧
+    ((vsfdefineTok [] "A" DFNT_UINT8 65532).bind fun usym => buildWList usym ["A", "PX"]).isNone = true := by decide
+
 /-! ### re-definition of a field (repaired by commit b2ad584)
 
 Before the repair the duplicate scan of `VSfdefine` compared the new type/order with `rstab[j]` (the table of RESERVED symbols
@@ -473,6 +482,7 @@ theorem vsfdefine_redefine_replaces (usym : List SymDef) (name : String) (t o : 
     u'.length = usym.length ∧ (u'.find? (·.name == name)).map (fun s => (s.type, s.order)) = some (t, o) := by
   unfold vsfdefine at h
   split at h; · cases h
+  unfold vsfdefineTok at h
   split at h; · cases h
   split at h; · cases h
   rename_i nt hnt
